@@ -31,6 +31,7 @@ import (
 var cfg vh.Config
 var rep *vh.Report
 var cases *vh.Cases
+var stats = map[string]int{}
 
 // ---------------------------------------------------------------- scripts
 func push(d []byte) []byte {
@@ -330,19 +331,52 @@ func buildTx(r *vh.RNG, w *wallet, built []*gTx, prevs []prevRef, nOut int, own 
 	return t
 }
 
+// spendIdx picks the output of p a child spends: preferably one that pays to the wallet
+func spendIdx(r *vh.RNG, w *wallet, p *gTx) uint32 {
+	var mine []int
+	for i, o := range p.outs {
+		for _, d := range o.pushes {
+			if w.owns(d) {
+				mine = append(mine, i)
+				break
+			}
+		}
+	}
+	if len(mine) > 0 && r.Intn(10) < 7 {
+		return uint32(vh.Pick(r, mine))
+	}
+	return uint32(r.Intn(len(p.outs) + 1))
+}
+
+func (w *wallet) owns(d []byte) bool {
+	for _, pool := range [][][]byte{w.h160, w.pubs, w.h256, w.tags} {
+		for _, x := range pool {
+			if bytes.Equal(x, d) {
+				return true
+			}
+		}
+	}
+	return false
+}
+
 // ---------------------------------------------------------------- blocks (spend DAGs)
 // genDAG returns transactions in a topological (creation) order
 func genDAG(r *vh.RNG, w *wallet, family string, n int, own int) []*gTx {
 	var built []*gTx
 	add := func(prevs []prevRef, nOut int, shape string) {
-		built = append(built, buildTx(r, w, built, prevs, nOut, own, shape))
+		// some transactions pay to the wallet, most others are only relevant through what they spend
+		o := 0
+		if r.Intn(10) < 5 {
+			o = 7 + own/3
+		}
+		built = append(built, buildTx(r, w, built, prevs, nOut, o, shape))
 	}
 	ext := func() prevRef { return prevRef{-1, uint32(r.Intn(3))} }
 	switch family {
 	case "chain": // t0 <- t1 <- t2 ...
 		add([]prevRef{ext()}, 1+r.Intn(2), "")
 		for i := 1; i < n; i++ {
-			add([]prevRef{{i - 1, uint32(r.Intn(len(built[i-1].outs) + 1))}}, 1+r.Intn(2), "")
+			add([]prevRef{{i - 1, spendIdx(r, w, built[i-1])}}, 1+r.Intn(2), "")
 		}
 	case "chain2": // every child spends two outputs of its parent
 		add([]prevRef{ext()}, 2, "")
@@ -360,7 +394,7 @@ func genDAG(r *vh.RNG, w *wallet, family string, n int, own int) []*gTx {
 	case "fan": // several children spend (double-spend) outputs of one parent
 		add([]prevRef{ext(), ext()}, 1+r.Intn(3), "")
 		for i := 1; i < n; i++ {
-			add([]prevRef{{0, uint32(r.Intn(len(built[0].outs)))}}, 1+r.Intn(2), "")
+			add([]prevRef{{0, spendIdx(r, w, built[0])}}, 1+r.Intn(2), "")
 		}
 	default: // random DAG
 		for i := 0; i < n; i++ {
@@ -369,7 +403,7 @@ func genDAG(r *vh.RNG, w *wallet, family string, n int, own int) []*gTx {
 			for j := 0; j < k; j++ {
 				if i > 0 && r.Intn(3) != 0 {
 					p := r.Intn(i)
-					prevs = append(prevs, prevRef{p, uint32(r.Intn(len(built[p].outs) + 1))})
+					prevs = append(prevs, prevRef{p, spendIdx(r, w, built[p])})
 				} else {
 					prevs = append(prevs, ext())
 				}
@@ -502,7 +536,7 @@ func genParams(r *vh.RNG, flags uint8) fParams {
 	return p
 }
 
-var flagChoices = []uint8{0, 1, 1, 1, 2, 2, 2, 3, 255}
+var flagChoices = []uint8{0, 1, 1, 1, 1, 1, 2, 2, 2, 2, 3, 255}
 
 func flagAllows(flags uint8, upd bool) bool {
 	return flags == uint8(wire.BloomUpdateAll) || (flags == uint8(wire.BloomUpdateP2PubkeyOnly) && upd)
@@ -939,6 +973,36 @@ func checkScan(sc scenario, corr bool, costOnly bool) {
 		return
 	}
 
+	// generator-quality statistics: did the re-check of earlier dependants matter, were there false positives
+	{
+		f := cloneFilter(sc.p, f0)
+		single := map[int]bool{}
+		for i, m := range sc.txs {
+			if f.MatchTxAndUpdate(bchutil.NewTx(m.Copy())) {
+				single[i] = true
+			}
+		}
+		if fmt.Sprint(sortedKeys(single)) != fmt.Sprint(sortedKeys(res.matched)) {
+			stats["scans_where_recheck_of_dependants_mattered"]++
+		}
+		if len(res.matched) > len(rel) && sc.p.Loaded && sc.p.Size > 0 && sc.p.K > 0 {
+			stats["scans_reporting_false_positives"]++
+		}
+		if len(rel) > 0 {
+			stats["scans_with_relevant_transactions"]++
+		}
+		direct := 0
+		for i, t := range sc.abs {
+			if rel[i] && matchesSet(watch, t) {
+				direct++
+			}
+		}
+		if sc.p.Loaded && direct < len(rel) {
+			stats["scans_with_transactions_relevant_only_through_a_spent_outpoint"]++
+		}
+		stats["scans"]++
+	}
+
 	// completeness: every relevant transaction is reported
 	for i := range sc.txs {
 		if rel[i] && !res.matched[i] {
@@ -1072,12 +1136,12 @@ func genWatch(r *vh.RNG, w *wallet, txs []*gTx) [][]byte {
 	var ws [][]byte
 	add := func(d []byte) { ws = append(ws, append([]byte(nil), d...)) }
 	for _, h := range w.h160 {
-		if r.Intn(3) != 0 {
+		if r.Intn(6) != 0 {
 			add(h)
 		}
 	}
 	for _, k := range w.pubs {
-		if r.Intn(2) == 0 {
+		if r.Intn(3) != 0 {
 			add(k)
 		}
 	}
@@ -1336,6 +1400,7 @@ func main() {
 
 	rep.Cases = cases.Len()
 	rep.Extra["duplicate_cases_dropped"] = cases.Dups
+	rep.Extra["generator_statistics"] = stats
 	rep.Extra["cost_metric"] = "heap objects allocated by GetMatchedIndices (runtime.MemStats.Mallocs) against (n + inputs) x (max objects of one direct MatchTxAndUpdate call + 40) + 16 x inputs + 256, plus a wall-clock deadline"
 	_, err := cases.Flush()
 	vh.Must(err)
